@@ -67,4 +67,8 @@ M4 dir.ReadDir: len(ret) == n -> len(ret) == n-1                 exit 1: 21 disa
 H1 harmless: rename `rest` -> `remainder` in fs.go               exit 0 (0 disagreements, facts regenerated identically)
 After the skeleton-digest facts were added (extractor-only re-check on a scratch copy): H1 still regenerates identical
 facts; `filepath.Join(filepath.Dir(name), …)` -> `filepath.Join(name, …)` in open flips skelOpenRec (C29_skeletons_ok fails).
+Fix phase: with the depth limit (c137312) and the ReadDir offset (53c5c31) in /repo, reverting c137312 on a scratch copy gives
+exit 1, `VIOLATION … violation-symlink-loop-stack-overflow.json` (concrete tree/path), 32/34 obligations (depth-limit fact, skeleton).
+The seeded change /tmp/seedout/C29/patch.diff (open -> Open inside open) gives `read-returns-wrong-content` (wd "sub", up: view
+"blob-2xx", tree "blob-1x") and `read-fails-on-readable-file` on corpus/C29/views-with-working-dir.ops.
 """
